@@ -427,7 +427,7 @@ func c19RunShutdown(b core.Batch, r *core.Recorder) {
 					cfg.Cache.MaxCacheSize.Overwrite(bytesize.ByteSize(newSize + int64(k) + 1))
 				}
 				var parked []string
-				for try := 0; try < 40; try++ {
+				for try := 0; try < 400; try++ {
 					time.Sleep(5 * time.Millisecond)
 					buf := make([]byte, 1<<20)
 					buf = buf[:runtime.Stack(buf, true)]
